@@ -281,6 +281,12 @@ def run_family(pid: str, tier: str, seed: int, replay=None) -> int:
         R.design("FeatGraphMC", "FeatGraphMC_thorough", workers=16, timeout=7200)
     states = pitgen.dump_states("FeatGraphMC", gcfg, R, workers=16, timeout=3600)
     if pid == "C09":
+        # 2-D grammar (rectangular tensors, height-axis concat with positive / negative axis index), <= 3 nodes: all states
+        st2 = pitgen.dump_states("FeatGraphMC", "FeatGraphMC_tiny2d", R, workers=16, timeout=3600)
+        s2 = _graph_state_scenarios(st2, pid, rng, 0 if not quick else 700)
+        for sc in s2:
+            sc["src"] = "tlc-graph-2d"
+        scs += s2
         R.design("FeatGraphMC", "FeatGraphMC_asis", expect_ok=False)    # sanity: without Supported() the invariants fail
         tiny = [s for s in states if len(s["arch"]["nodes"]) <= 3]
         rest = [s for s in states if len(s["arch"]["nodes"]) > 3]
